@@ -102,6 +102,8 @@ func (w *worker) runPath(maxDepth int) (outcome string) {
 					if len(c.stats.ErrSamples) < 5 {
 						c.stats.ErrSamples = append(c.stats.ErrSamples, r.reason)
 					}
+				} else if strings.HasPrefix(r.reason, "unwind:") && len(c.stats.ErrSamples) < 5 {
+					c.stats.ErrSamples = append(c.stats.ErrSamples, r.reason)
 				}
 			case goPanic:
 				// a Go run-time panic escaping the harness: violation of "never panics" for the code under test
